@@ -565,6 +565,14 @@ func genGbRecordN(rng *rand.Rand, fixedN, maxSeq, maxFeats int) (lines []string,
 		}
 		want.Feats = append(want.Feats, f)
 	}
+	// keyword blocks BEHIND the feature table (where NCBI writes CONTIG and WGS lines)
+	for _, k := range []string{"CONTIG", "WGS"} {
+		if rng.Intn(5) == 0 {
+			ws := wordsN(rng, 1+rng.Intn(20), ",.:()-")
+			want.Others = append(want.Others, [2]string{k, txt(ws)})
+			lines = append(lines, block(k, ws, kw)...)
+		}
+	}
 	lines = append(lines, "ORIGIN")
 	for i := 0; i < n; i += 60 {
 		l := fmt.Sprintf("%9d", i+1)
